@@ -12,11 +12,35 @@ import (
 )
 
 // g wraps the rapid source with the few draw shapes the renderers need.
-type g struct{ rt *rapid.T }
+// rapid's integer generators are deliberately biased towards small values
+// (IntRange(0,99) < 10 holds about 40 % of the time), which starves the rarer
+// shapes; every choice is therefore a fixed mixing function of a rapid draw and
+// its position, i.e. still fully determined by the rapid seed / fail file.
+type g struct {
+	rt  *rapid.T
+	ctr *uint64
+}
 
-func (x g) n(k int) int         { return rapid.IntRange(0, k-1).Draw(x.rt, "n") }
-func (x g) pct(p int) bool      { return rapid.IntRange(0, 99).Draw(x.rt, "pct") < p }
+func newG(rt *rapid.T) g {
+	salt := rapid.Uint64().Draw(rt, "salt")
+	return g{rt: rt, ctr: &salt}
+}
+
+func (x g) n(k int) int {
+	v := rapid.Uint64().Draw(x.rt, "u")
+	*x.ctr++
+	z := v + *x.ctr*0x9E3779B97F4A7C15
+	z = (z ^ (z >> 30)) * 0xBF58476D1CE4E5B9
+	z = (z ^ (z >> 27)) * 0x94D049BB133111EB
+	z ^= z >> 31
+	return int(z % uint64(k))
+}
+func (x g) pct(p int) bool         { return x.n(100) < p }
 func (x g) pick(s []string) string { return s[x.n(len(s))] }
+
+// N, Pct: the draw helpers for property packages.
+func (x g) N(k int) int    { return x.n(k) }
+func (x g) Pct(p int) bool { return x.pct(p) }
 
 // ---- raw SQL strings ---------------------------------------------------------------------------
 
@@ -296,7 +320,7 @@ func RenderRaw(rt *rapid.T, n *Node, mode RawMode, wild bool, qual string) Raw {
 	if mode == ModeNamed && countValues(n) == 0 {
 		mode = ModeQ // a template without values cannot be a named template
 	}
-	r := &rawR{g: g{rt}, mode: mode, wild: wild, qual: qual, feats: map[string]bool{}}
+	r := &rawR{g: newG(rt), mode: mode, wild: wild, qual: qual, feats: map[string]bool{}}
 	s := r.expr(n, KAtom)
 	if wild && r.pct(10) {
 		s = r.pick([]string{" ", "\n", "\t"}) + s
